@@ -167,7 +167,8 @@ def extract_vars(statement):
 
     variables = [v for v in variables if v[2] != ""]
 
-    return sorted(list(set(variables)), key=lambda var: var[2])
+    # Sort on the entire entry so that the order does not depend on the iteration order of the set.
+    return sorted(list(set(variables)), key=lambda var: (var[2], var[0], var[1]))
 
 
 def func_has_ctx_arg(func):
